@@ -207,7 +207,7 @@ func init() {
 		Assume: []string{"the injecting wrapper behaves like a well-formed driver: it closes the channel exactly once and then returns the error", "bounded time = the per-case watchdog (all-blocked rule, 120 s hard)"},
 		Floor:  200,
 		Phases: func(tier string, seed int64) []rt.Phase {
-			extra, raceEvery := 12, 2
+			extra, raceEvery := 12, 3
 			if tier == "thorough" {
 				extra, raceEvery = 370, 1
 			}
